@@ -16,10 +16,14 @@ conflict and the caller goes on to its second write) and no side-map transaction
 (`storeNeverFails`: such a failure is itself reported as a conflict and swallowed).  The code does
 not satisfy the property without these preconditions: the negations are proved on concrete
 schedules, which the harness replays on the real reconciler (`corpus/C20/kf-*.script`).
+The committed conjunct of `Consistency` needs neither precondition; it is proved for histories
+without rollback requests (`changeOnly`).  The applied conjunct is false on healthy schedules.
 -/
 import OnosVerif.Proofs.V3Bridge3
 import OnosVerif.Proofs.V3Inv4
 import OnosVerif.Proofs.V3Wedge
+import OnosVerif.Proofs.V3Consistency
+import OnosVerif.Proofs.V3Progress
 
 namespace OnosVerif.Props.C20
 open OnosVerif.V3
@@ -288,7 +292,147 @@ theorem C20_failed_blocks_later_fails_with_swallowed_conflicts :
              cord := 2, rord := 0, ridx := 0 } := by decide
   exact h 1 _ h1 (Or.inr rfl) (by decide) ⟨2, _, h2, by omega, Or.inl rfl⟩
 
+/-! ## Consistency -/
+
+/-- **Consistency (spec/Config.tla), committed conjunct, for histories without rollback requests.**
+    Over unbounded logs and *every* store behaviour the twin has (lost = swallowed configuration
+    writes, failing writes, side-map-only writes, interfering configuration / mastership
+    reconcilers, restarts): the transaction that is `Committed.Revision` has each of its values in
+    `Committed.Values` as `Get` returns them.  `changeOnly`: no northbound or racing rollback
+    request, each appended change names a path once.  `seed ≠ 2`: the creator did not pass
+    `Committed.Values` to `Create` (see `C20_consistency_committed_fails_under_side_map`). -/
+theorem C20_consistency_committed_partial (seed : Nat) (acts : List Action)
+    (hc : acts.all changeOnly = true) (hseed : seed ≠ 2) : ConsistencyCommitted (after seed acts) := by
+  intro i t hi hr _ kv hm
+  refine (VC.run (VC.init seed) acts hc).cons i t hi hr kv hm ?_
+  rw [run_cside]
+  simp [initSys, hseed, vKeys]
+
+/-- the same for a configuration created with `Committed.Values`: every path except the created
+    ones (the committed side map, which nothing writes after `Create`: `run_cside`). -/
+theorem C20_consistency_committed_outside_side_map (seed : Nat) (acts : List Action)
+    (hc : acts.all changeOnly = true) (i : Nat) (t : Tx) (hi : getTx (after seed acts) i = some t)
+    (hr : (after seed acts).cfg.cRevision = i) (kv : Str × PV) (hm : kv ∈ t.values)
+    (hp : kv.1 ∉ vKeys (initSys seed).cside) :
+    vLookup (view (after seed acts)).cVals kv.1 = some kv.2 := by
+  refine (VC.run (VC.init seed) acts hc).cons i t hi hr kv hm ?_
+  rw [run_cside]; exact hp
+
+def pvSeed : Values :=
+  [("/seed".toList, { path := "/seed".toList, value := "1".toList, deleted := false, index := 1 })]
+
+/-- a healthy schedule: one change of the path the configuration was created with -/
+def shadowWitness : List Action := healthy ++ [
+  .append pvSeed, .tx 1 .valid "ok".toList [] none, .tx 1 .valid "ok".toList [] none]
+
+/-- **The committed conjunct does not hold for a configuration created with values**: `Create`
+    moves `Committed.Values` into the committed side map, `UpdateStatus` embeds later committed
+    values in the entry and never writes that map, `Get` overlays the map over the entry: the
+    created value shadows every later committed change of its path. -/
+theorem C20_consistency_committed_fails_under_side_map : ¬ ConsistencyCommitted (after 2 shadowWitness) := by
+  intro h
+  have hv : (getTx (after 2 shadowWitness) 1).map (·.values) = some pvSeed := by decide
+  cases hg : getTx (after 2 shadowWitness) 1 with
+  | none => rw [hg] at hv; cases hv
+  | some t =>
+    rw [hg] at hv
+    simp only [Option.map_some, Option.some.injEq] at hv
+    have hrev : (after 2 shadowWitness).cfg.cRevision = 1 := by decide
+    have := h 1 t hg hrev (by rintro ⟨j, tj, _, hj, hr⟩; rw [hrev] at hr; omega)
+      ("/seed".toList, { path := "/seed".toList, value := "1".toList, deleted := false, index := 1 })
+      (by rw [hv]; simp [pvSeed])
+    revert this
+    decide
+
+example : shadowWitness.all changeOnly = true ∧ safeSchedule shadowWitness = true ∧
+    storeNeverFails (initSys 2) shadowWitness = true := by decide
+
+def pvA0 (v : String) : Values :=
+  [("/a".toList, { path := "/a".toList, value := v.toList, deleted := false, index := 0 })]
+
+/-- a healthy schedule: two changes of one path, each committed and applied; the values carry
+    `Index` 0 as a northbound creator leaves them (it cannot know the log index before `Create`) -/
+def appliedWitness : List Action := healthy ++ [
+  .append (pvA0 "1"),
+  .tx 1 .valid "ok".toList [] none, .tx 1 .valid "ok".toList [] none, .tx 1 .valid "ok".toList [] none,
+  .tx 1 .valid "ok".toList [] none, .tx 1 .valid "ok".toList [] none,
+  .append (pvA0 "2"),
+  .tx 2 .valid "ok".toList [] none, .tx 2 .valid "ok".toList [] none, .tx 2 .valid "ok".toList [] none,
+  .tx 2 .valid "ok".toList [] none, .tx 2 .valid "ok".toList [] none]
+
+/-- **The applied conjunct does not hold, on a healthy schedule**: the store updates an existing
+    entry of the applied side map only if `PathValue.Index` differs, and nothing sets the index of
+    a transaction's values: change 2 is `Applied.Revision`, the device has its value,
+    `Applied.Values` still says `1`. -/
+theorem C20_consistency_applied_fails : ¬ ConsistencyApplied (after 1 appliedWitness) := by
+  intro h
+  have hv : (getTx (after 1 appliedWitness) 2).map (·.values) = some (pvA0 "2") := by decide
+  cases hg : getTx (after 1 appliedWitness) 2 with
+  | none => rw [hg] at hv; cases hv
+  | some t =>
+    rw [hg] at hv
+    simp only [Option.map_some, Option.some.injEq] at hv
+    have hrev : (after 1 appliedWitness).cfg.aRevision = 2 := by decide
+    have := h 2 t hg hrev (by rintro ⟨j, tj, _, hj, hr⟩; rw [hrev] at hr; omega)
+      ("/a".toList, { path := "/a".toList, value := "2".toList, deleted := false, index := 0 })
+      (by rw [hv]; simp [pvA0])
+    revert this
+    decide
+
+example : appliedWitness.all changeOnly = true ∧ safeSchedule appliedWitness = true ∧
+    storeNeverFails (initSys 1) appliedWitness = true := by decide
+
+/-- a second healthy schedule against the applied conjunct (values with their log index): delete
+    `/x/y`, then set `/x/y/z`; the store prunes the new value below the applied tombstone. -/
+def tombstoneWitness : List Action := healthy ++ [
+  .append [("/x/y".toList, { path := "/x/y".toList, value := [], deleted := true, index := 1 })],
+  .tx 1 .valid "ok".toList [] none, .tx 1 .valid "ok".toList [] none, .tx 1 .valid "ok".toList [] none,
+  .tx 1 .valid "ok".toList [] none, .tx 1 .valid "ok".toList [] none,
+  .append [("/x/y/z".toList, { path := "/x/y/z".toList, value := "2".toList, deleted := false, index := 2 })],
+  .tx 2 .valid "ok".toList [] none, .tx 2 .valid "ok".toList [] none, .tx 2 .valid "ok".toList [] none,
+  .tx 2 .valid "ok".toList [] none, .tx 2 .valid "ok".toList [] none]
+
+example : (after 1 tombstoneWitness).cfg.aRevision = 2 ∧
+    vLookup (view (after 1 tombstoneWitness)).aVals "/x/y/z".toList = none := by decide
+
 /-! ## Termination -/
+
+/-- **Termination, the progress-measure half, for schedules without swallowed conflicts.**
+    `progress` adds up, over the transaction records, how far each status has moved (Pending <
+    InProgress < Complete / Aborted / Canceled / Failed; an accepted rollback request counts one); it
+    is at most 9 per transaction.  Along every schedule it never decreases, and every step that
+    changes the protocol state of an existing transaction record (a reconcile with one or two
+    writes of which the second may fail, a rollback request) increases it strictly: whatever the
+    interleaving, the faults and the restarts, at most `9·n` such steps happen in a history of `n`
+    transactions — no transaction record ever moves backwards or cycles.
+
+    What `Termination` of spec/Config.tla needs beyond this does not hold: that some reconcile is
+    enabled as long as a transaction is not final (`C20_terminates_fails_after_rollback`; the
+    harness monitor `terminates` finds the other blocked states on the real reconciler,
+    `KNOWN_FINDINGS.txt`).  Writes of the configuration record alone (a first write whose second
+    write failed) are not counted. -/
+theorem C20_terminates_partial (seed : Nat) (acts : List Action)
+    (hs : safeSchedule acts = true) (hf : storeNeverFails (initSys seed) acts = true) :
+    txChanges (initSys seed) acts ≤ progress (core (after seed acts)) ∧
+    progress (core (after seed acts)) ≤ 9 * (after seed acts).txs.length := by
+  refine ⟨?_, ?_⟩
+  · have := run_progress (initSys seed) acts hs hf
+    have h0 : progress (core (initSys seed)) = 0 := by rw [core_initSys]; rfl
+    simp only [after]; omega
+  · have := progress_le (core (after seed acts))
+    simpa [core] using this
+
+/-- the measure never decreases along a continuation of the schedule -/
+theorem C20_progress_monotone (seed : Nat) (acts more : List Action)
+    (hs : safeSchedule (acts ++ more) = true) (hf : storeNeverFails (initSys seed) (acts ++ more) = true) :
+    progress (core (after seed acts)) ≤ progress (core (after seed (acts ++ more))) := by
+  rw [safeSchedule_append, Bool.and_eq_true] at hs
+  rw [storeNeverFails_append, Bool.and_eq_true] at hf
+  have := run_progress (after seed acts) more hs.2 hf.2
+  simp only [after, run_append] at this ⊢
+  omega
+
+example : txChanges (initSys 1) sampleSchedule = 12 ∧ progress (core (after 1 sampleSchedule)) = 13 := by decide
 
 /-- **The rollback wedge: not every transaction terminates.**  In every state reachable (without
     swallowed conflicts) in which `commitRollback` has moved `Committed.Target` below
